@@ -27,6 +27,8 @@ def run(chk):
             rule_select(chk, comp, bp)
     if bp:
         rule_isolate(chk, bp)
+        import c18
+        c18.rule_build_eval(chk, prefix="C17.build")       # each pipeline is selected, bound and exported on its own copy, in that order
     rule_dup(chk)
 
 def rule_select_eval(chk, comp):
